@@ -11,12 +11,15 @@ Inductive c20case :=
 (* JSON(v) rendered under the keyword context c (directly or inside a statement) = out; json.dumps text (when comparable); independent decoding of the SQL literal *)
 | CJson (c : qctx) (v : jvalue) (out : string) (dumps : option string) (dec : option string)
 (* Tuple/Array term rendered under dialect d = out; independent tokenisation of out *)
-| CSeq (d : option dialect) (t : sterm) (out : string) (toks : option (list string)).
+| CSeq (d : option dialect) (t : sterm) (out : string) (toks : option (list string))
+(* ONE term object rendered several times in a row under different contexts: the model is a pure
+   function of (term, context), so every rendering must agree with the model for its own context *)
+| CMany (l : list c20case).
 
 Definition pair_eqb (a b : bool * list Z) : bool :=
   Bool.eqb (fst a) (fst b) && list_eqb Z.eqb (snd a) (snd b).
 
-Definition check_case (c : c20case) : bool :=
+Fixpoint check_case (c : c20case) : bool :=
   match c with
   | CInterval vals q w dc dr out => String.eqb (render_interval dr (mk_interval vals q w dc)) out
   | CTrim s out => String.eqb (trim s) out
@@ -28,9 +31,10 @@ Definition check_case (c : c20case) : bool :=
   | CSeq d t out toks =>
       String.eqb (render_seq d t) out
       && option_eqb (list_eqb String.eqb) (elements out) toks
+  | CMany l => forallb check_case l
   end.
 
-Definition show_case (c : c20case) : string :=
+Fixpoint show_case (c : c20case) : string :=
   match c with
   | CInterval vals q w dc dr _ => render_interval dr (mk_interval vals q w dc)
   | CTrim s _ => trim s
@@ -41,4 +45,5 @@ Definition show_case (c : c20case) : string :=
   | CJson c v _ _ _ => json_sql_ctx c v ++ " | spec: " ++ json_spec v
   | CSeq d t out _ => render_seq d t ++ " | elements: " ++
                       match elements out with Some l => join " ; " l | None => "None" end
+  | CMany l => join " || " (map show_case l)
   end.
